@@ -16,6 +16,10 @@ RECIPES = {
                          ("x", [("train", 2)]), ("x/y", [("train", 1)])]),
     "multi": ("fb", 2, [("multi", [("train", 3), ("train", 2),
                                    ("holdout", 1)])]),
+    # three levels; the lists of x and of the split have no shards of their
+    # own at first (children only), the root session comes last
+    "deep3": ("fb", 2, [("x/y", [("train", 1)]), ("x/y/z", [("train", 3)]),
+                        ("w", [("test", 1)]), ("root", [("train", 1)])]),
     "multi4": ("fb", 2, [("x", [("train", 1)]),
                          ("multi", [("train", 2), ("train", 1), ("train", 3),
                                     ("train", 1)]),
